@@ -4,6 +4,7 @@ import TantivyModel.Model.Store.Version
 import TantivyModel.Model.Store.VInt32
 import TantivyModel.Model.Store.JsonNumber
 import TantivyModel.Model.Store.DocPath
+import TantivyModel.Model.Store.Framing
 /-!
 Line protocol of the C09 model (doc store). Compression is `none` in every whole-file request
 (the harness feeds lz4/zstd stores block-wise after decompressing with the real codec).
@@ -145,6 +146,11 @@ def handle : List String → String
   | ["vintenc", n] =>
     match n.toNat? with
     | some n => hexOfBytes (vintEnc n)
+    | none => "bad-op"
+  | ["frame", lens] =>
+    -- the 4-byte header lz4 / zstd blocks start with, for a block of documents of these lengths
+    match natList lens with
+    | some ls => hexOfBytes (u32le (blockLenOf ls))
     | none => "bad-op"
   | ["cdoc", t] =>
     -- `CompactDoc::add_field_value` of one value (canonical text, on-disk reading of floats) into an
